@@ -3,36 +3,63 @@
    Every statement quantifies over all configurations, all thread programs
    [progs : list (list call)] (any number of threads, any calls) and all schedules
    [sched : list (thread id * spurious-CAS-failure flag)], and holds in EVERY state visited
-   ([states step init sched] lists them all). Only statements, `exact`, Print Assumptions. *)
-From TR Require Import Lib.Base Model.Budget Proof.Budget.
+   ([states step init sched] lists them all).
+   Token bucket: the statements named C08_* without suffix are about the budget that
+   TokenBucketBudget::new builds ([tb_new_prog] / [tb_new_mem]: scale by 1000 saturating at
+   u64::MAX, initial balance clamped to the maximum) — what Model.Budget.run_script executes;
+   the *_steps statements are the same facts for ANY scaled maximum and ANY scaled initial
+   balance (they contain the pre-a863e6a constructor, maxs = max*1000, init0 = initial*1000).
+   Only statements, `exact`, Print Assumptions. *)
+From TR Require Import Lib.Base Model.Budget Proof.Budget Proof.BudgetLin.
 From Coq Require Import Permutation.
 
 (* token bucket, scaled units (1 token = SCALE = 1000) and whole tokens:
-   grants * cost + balance <= initial + completed deposits * amount. An operation takes
+   grants * cost + balance <= initial + completed deposits * amount, for every max_tokens and
+   initial_tokens (also initial > max, also sizes at and beyond 2^64/1000). An operation takes
    effect at the very step that completes it, so no in-progress operation has touched the
    balance. *)
 Theorem C08_conservation :
   forall (maxt initial : Z) (progs : list (list tb_call)) (sched : list (nat * bool)),
     0 <= maxt -> 0 <= initial ->
     Forall (fun s =>
-              tb_grants s * SCALE + st_mem s LTok <= initial * SCALE + tb_deposits s * SCALE
+              tb_grants s * SCALE + st_mem s LTok <= tb_init maxt initial + tb_deposits s * SCALE
+              /\ tb_grants s + st_mem s LTok / SCALE <= Z.min initial maxt + tb_deposits s
               /\ tb_grants s + st_mem s LTok / SCALE <= initial + tb_deposits s)
-           (states (step (tb_prog (maxt * SCALE))) (init_state (tb_mem initial) progs) sched).
+           (states (step (tb_new_prog maxt)) (init_state (tb_new_mem maxt initial) progs) sched).
 Proof. exact tb_conservation. Qed.
 Print Assumptions C08_conservation.
 
-(* the balance never goes negative and never exceeds max(initial, max_tokens): the
-   constructor does not clamp initial_tokens, so the cap is max_tokens when initial <= max *)
+Theorem C08_conservation_steps :
+  forall (maxs init0 : Z) (progs : list (list tb_call)) (sched : list (nat * bool)),
+    0 <= maxs -> 0 <= init0 ->
+    Forall (fun s => tb_grants s * SCALE + st_mem s LTok <= init0 + tb_deposits s * SCALE)
+           (states (step (tb_prog maxs)) (init_state (tb_mem0 init0) progs) sched).
+Proof. exact tb_conservation_steps. Qed.
+Print Assumptions C08_conservation_steps.
+
+(* the balance never goes negative and NEVER exceeds the configured maximum, for all
+   initial_tokens and max_tokens (the constructor clamps; before /repo a863e6a this held only
+   for initial <= max — see Proof.Budget.unclamped_start_refuted) *)
 Theorem C08_balance_le_max :
   forall (maxt initial : Z) (progs : list (list tb_call)) (sched : list (nat * bool)),
     0 <= maxt -> 0 <= initial ->
     Forall (fun s =>
-              0 <= st_mem s LTok <= Z.max initial maxt * SCALE
-              /\ 0 <= st_mem s LTok / SCALE <= Z.max initial maxt
-              /\ (initial <= maxt -> st_mem s LTok / SCALE <= maxt))
-           (states (step (tb_prog (maxt * SCALE))) (init_state (tb_mem initial) progs) sched).
+              0 <= st_mem s LTok <= tb_maxs maxt
+              /\ st_mem s LTok <= maxt * SCALE
+              /\ 0 <= st_mem s LTok / SCALE <= maxt)
+           (states (step (tb_new_prog maxt)) (init_state (tb_new_mem maxt initial) progs) sched).
 Proof. exact tb_balance_le_max. Qed.
 Print Assumptions C08_balance_le_max.
+
+(* step level: the balance stays within max(initial, max), and within max when it starts there *)
+Theorem C08_balance_steps :
+  forall (maxs init0 : Z) (progs : list (list tb_call)) (sched : list (nat * bool)),
+    0 <= maxs -> 0 <= init0 ->
+    Forall (fun s => 0 <= st_mem s LTok <= Z.max init0 maxs
+                     /\ (init0 <= maxs -> st_mem s LTok <= maxs))
+           (states (step (tb_prog maxs)) (init_state (tb_mem0 init0) progs) sched).
+Proof. exact tb_balance_steps. Qed.
+Print Assumptions C08_balance_steps.
 
 (* AIMD budget, for every decrease function [dec] (the f64 computation) and every ceiling the
    controller may hold: a deposit counts from the step that adds its tokens (it returns only
@@ -85,18 +112,56 @@ Theorem C08_linearizable_token_bucket :
                 Permutation lin (st_log s)
                 /\ (forall i j a b, nth_error lin i = Some a -> nth_error lin j = Some b ->
                                     r_res a < r_first b -> (i < j)%nat)
-                /\ seq_run (tb_seq (maxt * SCALE)) (initial * SCALE) (map r_call lin)
+                /\ seq_run (tb_seq (tb_maxs maxt)) (tb_init maxt initial) (map r_call lin)
                    = (map r_ret lin, st_mem s LTok))
-           (states (step (tb_prog (maxt * SCALE))) (init_state (tb_mem initial) progs) sched).
+           (states (step (tb_new_prog maxt)) (init_state (tb_new_mem maxt initial) progs) sched).
 Proof. exact tb_linearizable. Qed.
 Print Assumptions C08_linearizable_token_bucket.
+
+Theorem C08_linearizable_token_bucket_steps :
+  forall (maxs init0 : Z) (progs : list (list tb_call)) (sched : list (nat * bool)),
+    0 <= maxs -> 0 <= init0 ->
+    Forall (fun s =>
+              exists lin : list (orec tb_call),
+                Permutation lin (st_log s)
+                /\ (forall i j a b, nth_error lin i = Some a -> nth_error lin j = Some b ->
+                                    r_res a < r_first b -> (i < j)%nat)
+                /\ seq_run (tb_seq maxs) init0 (map r_call lin) = (map r_ret lin, st_mem s LTok))
+           (states (step (tb_prog maxs)) (init_state (tb_mem0 init0) progs) sched).
+Proof. exact tb_linearizable_steps. Qed.
+Print Assumptions C08_linearizable_token_bucket_steps.
 
 (* the log is the history: per thread, its completed operations (in log order), the call in
    progress and the calls not yet begun are exactly the thread's program *)
 Theorem C08_log_is_the_history :
-  forall (maxt initial : Z) (progs : list (list tb_call)) (sched : list (nat * bool)),
+  forall (maxs : Z) (m0 : mem) (progs : list (list tb_call)) (sched : list (nat * bool)),
     Forall (fun s => forall tid t, nth_error (st_thr s) tid = Some t ->
                        done_calls tid (st_log s) ++ cur_calls t ++ th_calls t = nth tid progs [])
-           (states (step (tb_prog (maxt * SCALE))) (init_state (tb_mem initial) progs) sched).
+           (states (step (tb_prog maxs)) (init_state m0 progs) sched).
 Proof. exact tb_program_order. Qed.
 Print Assumptions C08_log_is_the_history.
+
+(* linearizability of the AIMD budget's token balance (the deposit's ceiling nondeterministic
+   within [min_budget, max_budget], see Model.Budget.ab_seq_step): at every quiescent state
+   there is a sequential order [lin] of the completed try_withdraw / deposit / balance()
+   operations that respects real time and on which the sequential object yields the same
+   return values and the current balance. Linearization points: the successful
+   compare-exchange on the balance (granted withdrawal, deposit — the deposit's later update
+   of the ceiling is not part of the token object), the load that sees too few tokens
+   (refused withdrawal), the load of balance(). *)
+Theorem C08_linearizable_aimd_tokens :
+  forall (min_b max_b amount w : Z) (dec : Z -> Z) (progs : list (list ab_call))
+         (sched : list (nat * bool)),
+    0 <= min_b <= max_b -> max_b <= U64MAX -> 0 <= amount -> 0 <= w ->
+    Forall (fun s =>
+              quiescent s ->
+              exists lin : list (orec ab_call),
+                Permutation lin (filter tok_op (st_log s))
+                /\ (forall i j a b, nth_error lin i = Some a -> nth_error lin j = Some b ->
+                                    r_res a < r_first b -> (i < j)%nat)
+                /\ ab_seq_run (ab_cfg min_b max_b amount w) max_b
+                              (map (fun r => (r_call r, r_ret r)) lin) (st_mem s LTok))
+           (states (step (ab_prog (ab_cfg min_b max_b amount w) dec))
+                   (init_state (ab_mem (ab_cfg min_b max_b amount w)) progs) sched).
+Proof. exact ab_linearizable. Qed.
+Print Assumptions C08_linearizable_aimd_tokens.
